@@ -2,47 +2,60 @@
    Model: Grist.Model.Csv (hand-written from imports/import_csv.py, import_utils.py, parse_data.get_table_data;
    compared with the running importer on every run).  The model starts from the grid of string rows that
    csv.reader produced; `isnum` stands for import_utils._is_numeric and is universally quantified.
-   `import_csv = import_csv_gen source_is_repaired`; source_is_repaired = false is /repo's current source,
-   true is the source with notes/proposed_fixes/C32-late-wide-row.diff applied.
+   `import_csv = import_csv_gen source_is_repaired`; source_is_repaired = true is /repo's current source (fix commit
+   6b8f366 = notes/proposed_fixes/C32-late-wide-row.diff), false the source before it.
    Statements only; proofs are in Proofs/Csv_proofs.v. *)
 From Coq Require Import ZArith List Bool Arith Sorted.
 Import ListNotations.
 Require Import Grist.Model.Csv Grist.Proofs.Csv_proofs.
 
-(* THE PROPERTY AT FULL STRENGTH: for every grid and all options, all columns have one entry per data row
-   and every cell with a non-blank character in a data row appears at its row and column. *)
-Definition C32_cells_kept_statement : Prop :=
+(* THE PROPERTY AT FULL STRENGTH, about the model of /repo's current source (import_csv = import_csv_gen true since
+   fix commit 6b8f366): for every grid and all options, all columns have one entry per data row and every cell
+   with a non-blank character in a data row appears at its row and column. *)
+Theorem C32_cells_kept :
   forall (isnum : cell -> bool) (g : grid) (o : options),
     cells_kept (csv_data_rows isnum g o) (import_csv isnum g o).
+Proof. exact repaired_keeps_cells. Qed.
 
-(* The current source violates it: 100 rows `a,b`, then `x,y,z` -- the `z` is gone (the table width comes
-   from the first 100 rows only).  [When source_is_repaired is switched to true this proof stops compiling;
-   replace it by `Theorem C32_cells_kept : C32_cells_kept_statement. Proof. exact repaired_keeps_cells. Qed.`] *)
-Theorem C32_refuted :
-  exists isnum g o, length g = 101 /\ ~ cells_kept (csv_data_rows isnum g o) (import_csv isnum g o).
+(* Regression examples on the current source: the two old witnesses keep their cells.  100 rows `a,b` then
+   `x,y,z`: three columns, `z` at data row 100; blank first line then `a`, `b`: one column with both cells. *)
+Example C32_late_wide_row_regression :
+  map (fun c => (c_index c, nth_error (c_data c) 100)) (import_csv no_numbers late_wide_witness default_options)
+    = [(0, Some [120%Z]); (1, Some [121%Z]); (2, Some [122%Z])].
+Proof. vm_compute. reflexivity. Qed.
+
+Example C32_blank_first_row_regression :
+  map (fun c => (c_index c, c_data c)) (import_csv no_numbers blank_first_witness default_options)
+    = [(0, [[97%Z]; [98%Z]])].
+Proof. vm_compute. reflexivity. Qed.
+
+(* ---- What the fix was needed for: the source BEFORE commit 6b8f366 is import_csv_gen false ------------------- *)
+
+(* It violated the statement: 100 rows `a,b`, then `x,y,z` -- the `z` was dropped (width from the sample only). *)
+Theorem C32_before_fix_refuted :
+  exists isnum g o, length g = 101 /\ ~ cells_kept (csv_data_rows isnum g o) (import_csv_gen false isnum g o).
 Proof.
   exists no_numbers, late_wide_witness, default_options. split; [reflexivity | exact late_wide_refutes].
 Qed.
 
-(* A second, independent way in which the current source violates it: a blank first line followed by
-   single-column data gives a table of width 0 (no table at all). *)
-Theorem C32_refuted_blank_first_row :
-  exists isnum g o, length g = 3 /\ ~ cells_kept (csv_data_rows isnum g o) (import_csv isnum g o).
+(* ... and, independently: a blank first line followed by single-column data gave width 0 (no table at all). *)
+Theorem C32_before_fix_refuted_blank_first_row :
+  exists isnum g o, length g = 3 /\ ~ cells_kept (csv_data_rows isnum g o) (import_csv_gen false isnum g o).
 Proof.
   exists no_numbers, blank_first_witness, default_options. split; [reflexivity | exact blank_first_refutes].
 Qed.
 
-(* Exact characterisation, current and repaired source alike: the statement holds for a grid precisely when
+(* Exact characterisation, source before and after the fix alike: the statement holds for a grid precisely when
    every data row, trimmed of trailing blank cells, fits into the table width the importer derived. *)
 Theorem C32_cells_kept_iff : forall repaired isnum g o,
   cells_kept (csv_data_rows isnum g o) (import_csv_gen repaired isnum g o) <->
   rows_fit (csv_width repaired isnum g o) (csv_data_rows isnum g o) = true.
 Proof. exact statement_iff. Qed.
 
-(* Current source, positive part: the statement holds whenever (1) no row after the 100-row sample is wider
+(* Source before the fix, positive part: the statement held whenever (1) no row after the 100-row sample is wider
    than the width derived from the sample and (2) the file is not of the blank-first-line, single-column kind
    imported without an explicit headers=True. *)
-Theorem C32_cells_kept_current : forall isnum g o,
+Theorem C32_cells_kept_before_fix : forall isnum g o,
   late_rows_fit isnum g o -> ~ blank_first_row_case g o ->
   cells_kept (csv_data_rows isnum g o) (import_csv_gen false isnum g o).
 Proof. exact current_keeps_cells. Qed.
@@ -53,8 +66,8 @@ Theorem C32_late_rows_fit_necessary : forall isnum g o,
   cells_kept (csv_data_rows isnum g o) (import_csv_gen false isnum g o) -> late_rows_fit isnum g o.
 Proof. exact late_rows_fit_necessary. Qed.
 
-(* (1) holds for every file of at most 100 rows. *)
-Theorem C32_cells_kept_short_file : forall isnum g o,
+(* (1) held for every file of at most 100 rows. *)
+Theorem C32_cells_kept_before_fix_short_file : forall isnum g o,
   length g <= sample_len -> hd_error g <> Some [] ->
   cells_kept (csv_data_rows isnum g o) (import_csv_gen false isnum g o).
 Proof.
@@ -63,12 +76,12 @@ Proof.
   - intros [H _]. exact (Hhd H).
 Qed.
 
-(* Repaired source (the one-line patch): the statement at full strength, no hypotheses. *)
+(* The same as C32_cells_kept, stated on the explicit variant (independent of the switch). *)
 Theorem C32_cells_kept_repaired : forall isnum g o,
   cells_kept (csv_data_rows isnum g o) (import_csv_gen true isnum g o).
 Proof. exact repaired_keeps_cells. Qed.
 
-(* Unconditional facts, current and repaired source alike. *)
+(* Unconditional facts, both variants (repaired = true is the current source). *)
 
 (* all columns have one entry per data row *)
 Theorem C32_columns_rectangular : forall repaired isnum g o col,
@@ -96,9 +109,9 @@ Theorem C32_column_kept : forall repaired isnum g o j h,
      (import_csv_gen repaired isnum g o).
 Proof. exact column_kept. Qed.
 
-(* Non-vacuity of C32_cells_kept_current: a 102-row file with a header, a three-cell row inside the sample and a
+(* Non-vacuity of C32_cells_kept_before_fix: a 102-row file with a header, a three-cell row inside the sample and a
    three-cell row after it satisfies both hypotheses, and the late `z` is imported (row 100 of column 2). *)
-Example C32_current_nonvacuous :
+Example C32_before_fix_nonvacuous :
   late_rows_fit no_numbers fitting_example default_options /\
   ~ blank_first_row_case fitting_example default_options /\
   length fitting_example = 102 /\
